@@ -28,6 +28,11 @@ GS = {"flavor": "f64", "kind": "gauge", "threads": ["t1", "t2", "t3"], "starve":
       "scripts": {"t1": [{"k": "sub", "v": 1}, {"k": "get"}], "t2": [{"k": "add", "v": 2}] * 16, "t3": [{"k": "dec"}, {"k": "get"}]}}
 
 
+# the scrape path (Metric::metric, what collect() and gather() call) is one more reader: it must read, not write
+G0m = {"flavor": "f64", "kind": "gauge", "threads": ["t1", "t2", "t3"], "pre": [{"k": "set", "v": -0.0}],
+       "scripts": {"t1": [{"k": "add", "v": 1}, {"k": "get"}], "t2": [{"k": "get", "via": "metric"}, {"k": "get", "via": "metric"}], "t3": [{"k": "set", "v": -0.0}, {"k": "add", "v": 2}, {"k": "get", "via": "metric"}]}}
+G2m = {"flavor": "f64", "kind": "gauge", "threads": ["t1", "t2"],
+       "scripts": {"t1": [{"k": "add", "v": 4}, {"k": "get", "via": "metric"}, {"k": "sub", "v": 4}], "t2": [{"k": "set", "v": 8}, {"k": "get", "via": "metric"}, {"k": "inc"}]}}
 # non-finite values (the float gauge over the extended reals): +Inf - Inf = NaN, NaN absorbs add/sub but not set
 GX1 = {"flavor": "f64", "kind": "gauge", "threads": ["t1", "t2"], "pre": [{"k": "set", "v": "+Inf"}],
        "scripts": {"t1": [{"k": "add", "v": "-Inf"}, {"k": "get"}], "t2": [{"k": "set", "v": 5}, {"k": "inc"}, {"k": "get"}]}}
@@ -48,9 +53,13 @@ def run(ctx):
         # (no edge-cover replay here: the model's integers do not distinguish -0.0 from +0.0, the code's compare-exchange does)
         run_scenario(ctx, "C11", exe, G0, "G0", stats, samples, *O, model=False, nrandom=400)
         run_scenario(ctx, "C11", exe, GS, "GS", stats, samples, *O, model=False, nrandom=20, check=False)
+        run_scenario(ctx, "C11", exe, G0m, "G0m", stats, samples, *O, model=False, nrandom=200, check=False)
+        run_scenario(ctx, "C11", exe, G2m, "G2m", stats, samples, *O, model=False, nrandom=100, check=False, kinds=["gauge", "intgauge"])
         run_scenario(ctx, "C11", exe, GX1, "GX1", stats, samples, *O, model=False, nrandom=150, check=False, kinds=["gauge", "gaugevec_child"])
         run_scenario(ctx, "C11", exe, GX2, "GX2", stats, samples, *O, model=False, nrandom=150, check=False)
     else:
+        run_scenario(ctx, "C11", exe, G0m, "G0m", stats, samples, *O, model=False, nrandom=5000, check=False, kinds=["gauge", "gaugevec_child"])
+        run_scenario(ctx, "C11", exe, G2m, "G2m", stats, samples, *O, model=False, nrandom=3000, check=False, kinds=["gauge", "intgauge", "gaugevec_child"])
         run_scenario(ctx, "C11", exe, GX1, "GX1", stats, samples, *O, model=False, nrandom=5000, check=False, kinds=["gauge", "gaugevec_child"])
         run_scenario(ctx, "C11", exe, GX2, "GX2", stats, samples, *O, model=False, nrandom=5000, check=False, kinds=["gauge", "gaugevec_child"])
         run_scenario(ctx, "C11", exe, G0, "G0", stats, samples, *O, model=False, nrandom=8000, kinds=["gauge", "gaugevec_child"])
